@@ -310,7 +310,8 @@ def triedEv (s : State) (a : Nat) (src : Src) (ok : Bool) : Ev :=
     consumed when it is the blocking one) -/
 def tryBlocked (s : State) (a : Nat) : Bool :=
   let x := s.actors a
-  x.strat == .longLived || s.sysStopping || x.skipNext || x.stopping || x.suspended || x.pausedF
+  x.strat == .longLived || s.sysStopping || x.skipNext || x.stopping || x.suspended || x.pausedF ||
+    !x.running   -- under stopLocker: "actor is offline, maybe stopped already" (fix 6f92e10)
 
 /-- `tryPassivation`: the result -/
 def tryB (s : State) (a : Nat) : Bool := !s.tryBlocked a && !(s.actors a).failStop
@@ -494,7 +495,8 @@ def trigger : Nat → State → Nat → List SOp → List SOp → State
         if t.entries a ≠ some g then t else
         if passivateB (s.popHead g) g pre then t.delEntry a else
         if (t.objs g).paused then t else
-        trigger f ((t.refresh g).hpush g) g [] []
+        -- a Resume/Register inside the window has already re-queued the entry: no second push
+        if t.idx g < 0 then trigger f ((t.refresh g).hpush g) g [] [] else trigger f t g [] []
 
 /-- `processMessageEntry(entry)` -/
 def processMessageEntry (s : State) (g : Nat) (pre post : List SOp) : State :=
